@@ -100,7 +100,7 @@ PROFILE = {
 
 
 def gen_family(rng, hashseeds, tier):
-    if tier == 'thorough' and rng.random() < 0.03:
+    if tier == 'thorough' and rng.random() < 0.06:
         return gen_large_family(rng, hashseeds)
     if rng.random() < 0.12:
         # transformer families: ob-csv source with >= 2 float-typed columns
@@ -161,6 +161,12 @@ def gen_large_family(rng, hashseeds):
                 heuristics=['MI-numba-randomized'], colopts={'kind': ['id', 'lowcard', 'midcard']}, more_runs=0.0)
     base = pipe_common.gen_spec(rng, prof)
     base.pop('poison', None)
+    wl = base['workload']
+    j = next(k for k, h in enumerate(wl['header']) if h != wl['label'])
+    for i, ln in enumerate(wl['lines']):
+        if ln['ok']:
+            ln['cells'][j] = f'id{i:06d}'          # identifier-like: as many distinct values as rows
+    wl['kinds'][j] = 'id'
     members = []
     for i, p in enumerate([1, 2, 4, 16]):
         m = copy.deepcopy(base)
